@@ -6,13 +6,17 @@ ID = 'C17'
 GEN = []
 LEAN_TARGETS = ['OtelVerif.Props.C17']
 THEOREMS = ['Otel.C17.' + t for t in (
-    'each_callback_once_per_collect', 'registered_once_invoked_once', 'removed_never_invoked',
-    'destroyed_instrument_never_invoked', 'invocations_count',
-    'async_refines_sync', 'lastObs_eq_recorded',
+    # ObservableRegistry: every history of AddCallback / RemoveCallback / instrument destruction
+    'invocations_count', 'registered_once_invoked_once', 'removed_never_invoked', 'destroyed_instrument_never_invoked',
+    'meter_registry', 'each_callback_once_per_collect',
+    # observable counters / up-down counters: refinement to C06's storage, telescoping
+    'recordAll_clean', 'async_refines_sync', 'cycleOut_eq', 'lastObs_eq_recorded', 'recSince_translate',
     'observable_cumulative_is_reported_total', 'observable_cumulative_reports_this_cycle',
     'observable_delta_is_diff_from_own_last', 'observable_delta_sums_to_given', 'reader_noninterference_async',
     'D21_witness',
-    'later_assoc_latest', 'lmergeAll_latest', 'gauge_reports_latest_sync', 'gauge_reports_latest_observable_cycle',
+    # gauges: last-value aggregation through the temporal storage, every history
+    'before_lt_since', 'linv_run', 'gauge_reports_latest', 'gauge_points_nodup', 'gauge_reports_latest_sync',
+    'gauge_reports_latest_observable_cycle', 'gauge_reports_this_cycle',
 )]
 _SRCS = sdk_sources('common', 'resource', 'version', 'metrics')
 HARNESSES = [Harness('s_c17', ['harness/s_c17.cc'], sdk_srcs=_SRCS, includes=SDK_INCLUDES),
@@ -117,7 +121,7 @@ def gen_history(rng, nops, allow_sg):
 def generate(rng, tier):
     big = tier == 'thorough'
     out = []
-    for i in range(40000 if big else 3000):
+    for i in range(80000 if big else 8000):
         nops = rng.choice([10, 20, 40, 80])
         allow_sg = rng.random() < 0.4
         l, sg = gen_history(rng, nops, allow_sg)
@@ -332,6 +336,24 @@ def nontrivial(case, out):
     return ' addcb ' in case.line and case.line.count('; collect ') >= 2 and not out.startswith('bad-op')
 
 
-LEVEL_TEXT = ''
-LEVEL_NOTE = ''
+LEVEL_TEXT = ('Lean 4 theorems over an executable model of ObservableRegistry, ObserverResultT, AsyncMetricStorage, the last-value '
+              'aggregation and TemporalMetricStorage::buildMetrics, for EVERY history: invocations_count / '
+              'each_callback_once_per_collect / removed_never_invoked / destroyed_instrument_never_invoked (registry); '
+              'async_refines_sync (an AsyncMetricStorage is C06\'s SyncMetricStorage fed with differences of successive '
+              'observations) and by telescoping observable_cumulative_is_reported_total, observable_delta_is_diff_from_own_last, '
+              'observable_delta_sums_to_given, reader_noninterference_async, with the D21 hypothesis explicit and D21_witness '
+              'showing it is needed; gauge_reports_latest (one inductive invariant over the last-value temporal storage), '
+              'gauge_reports_latest_sync and gauge_reports_latest_observable_cycle. Tied to the code by differential runs on a '
+              'real MeterProvider (ABI v1 build, and ABI v2 build for synchronous gauges) with scripted callbacks whose '
+              'invocations are logged.')
+LEVEL_NOTE = ('Trusted: Lean kernel (axioms propext/Quot.sound/Classical.choice at most); harness, generators, canonicalisation. '
+              'Hypotheses in the statements: (D21) within one collection no attribute set is reported twice to one instrument - '
+              'otherwise the second Record overwrites the first delta (D21_witness; the unchanged code behaves so, semantics open); '
+              'sample times of last-value aggregations strictly increase from one record to the next (the real clock can tie: the '
+              'harness waits for the clock to advance between operations, the baseline marks the last-value tests flaky). '
+              'Partial: the observable-counter and gauge theorems are stated per storage (one instrument, one stream) over the cycles '
+              'that storage sees; that Meter::Collect feeds each storage exactly the measurements of the callbacks registered on its '
+              'instrument is part of the executable model and of the differential tie, not a separate theorem. A negative '
+              '"total" on a monotonic observable counter is recorded as 0 (modelled, excluded from the value clauses). View '
+              'attribute filters are ignored on the observable path (D22, belongs to C08/C19). FP rounding and int64 overflow are not generated.')
 DESIGN_REF = 'DESIGN.md section 4, C17; Appendix D'
